@@ -477,8 +477,10 @@ class Pert:
         t += CE * EPS * 0.5 * float((Q * np.abs(dC)).sum())
         t += self.kE * self.na * float(np.linalg.norm(dmu)) + CE * EPS * float((np.abs(self.alpha) * np.abs(dmu)).sum())
         # the stabiliser's own theta-dependence is not pinned: allow its whole contribution
-        if djit is not None and len(djit) == self.n:
-            t += 0.5 * float((np.diag(Q) * np.abs(djit)).sum())
+        # (djit: derivative of the stabiliser's contribution to C - a diagonal, or a full matrix B diag B^T)
+        if djit is not None:
+            dj = np.asarray(djit, dtype=float)
+            t += 0.5 * float((np.diag(Q) * np.abs(dj)).sum()) if dj.ndim == 1 else 0.5 * float((Q * np.abs(dj)).sum())
         return t
 
     # leave-one-out
